@@ -31,10 +31,12 @@ from vsc.model.coverpoint_bin_model_base import CoverpointBinModelBase
 
 class CoverpointBinArrayModel(CoverpointBinModelBase):
     
-    def __init__(self, name, low, high):
+    def __init__(self, name, low, high, idx_base=0):
         super().__init__(name)
         self.low = low 
         self.high = high 
+        # Index of the first bin within the declared bin array
+        self.idx_base = idx_base
         self.hit_bin_idx = -1
         
     def finalize(self, bin_idx_base:int)->int:
@@ -50,7 +52,7 @@ class CoverpointBinArrayModel(CoverpointBinModelBase):
         )
     
     def get_bin_name(self, bin_idx):
-        return self.name + "[" + str(self.bin_idx_base+bin_idx) + "]"
+        return self.name + "[" + str(self.idx_base+bin_idx) + "]"
             
     def sample(self):
         # Query value from the actual coverpoint or expression
@@ -94,7 +96,7 @@ class CoverpointBinArrayModel(CoverpointBinModelBase):
         return eq
 
     def clone(self)->'CoverpointBinArrayModel':
-        ret = CoverpointBinArrayModel(self.name, self.low, self.high)
+        ret = CoverpointBinArrayModel(self.name, self.low, self.high, self.idx_base)
         ret.srcinfo_decl = None if self.srcinfo_decl is None else self.srcinfo_decl.clone()
         
         return ret
